@@ -312,7 +312,7 @@ def execute(sc):
         docroutes = [o for o in outcomes if o.route in ('stream', 'path', 'named_stream', 'file_handle', 'png_uri', 'svg_uri',
                                                         'svgz', 'cli', 'cli_svgz', 'nonseekable')]
         refusing = [o for o in docroutes if o.err and o.err.startswith('ValueError')]
-        if refusing and len(refusing) == len([o for o in docroutes if not fail_allowed(o)]) and not any(o.route in ('cli', 'cli_svgz') and o.proc['status'] == 0 for o in docroutes):
+        if refusing and all(o in refusing for o in docroutes if not fail_allowed(o)) and not any(o.route in ('cli', 'cli_svgz') and o.proc['status'] == 0 for o in docroutes):
             counters['options_refused_by_all_routes'] = 1
             res['digest'] = core.digest(log)
             res['sample'] = _sample(sc, outcomes)
